@@ -25,7 +25,7 @@ RULE = ('class shapes: inheritance chains of depth 1-3 with auto_persist at some
         '(shape, values, loader mode); non-trivial when >=2 member kinds are present')
 RULE += ('; also: members declared from the persist() hook or saved manually, ancestors saved before / after, futures resolved with a Savable, a shadowing class, a class name rebound after the first save, load and save contexts reused across saves')
 ASSUMPTIONS = ['custom loaders are constructible without arguments (the saved state records the loader class)', 'exceptions compare by type and args']
-REQUIRED = ['roundtrips', 'kinds/plain', 'kinds/method', 'kinds/savable', 'kinds/future', 'future_states/pending', 'future_states/result',
+REQUIRED = ['lost_loader_probes', 'property_backed_members', 'roundtrips', 'kinds/plain', 'kinds/method', 'kinds/savable', 'kinds/future', 'future_states/pending', 'future_states/result',
             'future_states/exception', 'future_states/exception-falsy', 'future_states/exception-base', 'saved_states_as_data', 'future_states/cancelled', 'future_states/result-savable', 'manually_saved', 'hook_declared', 'loader/default', 'loader/global', 'loader/persave', 'loader/unknown', 'loader/ctxreuse',
             'mutation_probes', 'inherited_checks', 'rebound_name_probes', 'second_saves_same_context', 'refusing_loader_probes', 'global_loader_derived_from_recorded', 'loader/persave-anon', 'registry_loader_probes', 'foreign_method_probes', 'loaded_before_any_save_of_the_class', 'extended_context_copies', 'unimportable_module_probes', 'loader/persave-picky']
 BOUNDS = {'quick': '150 shapes x 4 loader modes', 'thorough': '3000 shapes x 4 loader modes'}
@@ -190,7 +190,7 @@ def rand_shape(rng, nest):
         # ... or save and load them itself, with the save_members / load_members helpers, from overridden save / load_instance_state
         manual = bool(decorated and decl and not hook and rng.random() < 0.2)
         levels.append({'decl': decl if decorated else [], 'pending': [] if decorated else decl, 'redecl': redecl and not hook and not manual,
-                       'undeclared': undeclared, 'hook': hook, 'manual': manual})
+                       'undeclared': undeclared, 'hook': hook, 'manual': manual, 'prop': bool(decorated and decl and rng.random() < 0.25)})
         if not decorated:
             for name in decl:
                 members.pop(name)
@@ -219,6 +219,10 @@ def build_class(shape, twin=False):
         ns = {'__init__': init}
         for m in range(3):
             ns['meth%d' % m] = _mk_method(m)
+        if level.get('prop') and level['decl']:
+            # the first member this level declares is a property with a setter (the value lives under another name): declared members
+            # are attributes, and attributes are set the way the class says
+            ns[level['decl'][0]] = _mk_property(level['decl'][0])
         name = 'Sav_%d_%d' % (len(_CLS), lv)
         cls = type(name, (base,), ns)
         generated.register(cls, name)
@@ -252,6 +256,18 @@ def build_class(shape, twin=False):
         base = cls
     _CLS[key] = (base, chain)
     return _CLS[key]
+
+
+def _mk_property(name):
+    hidden = '_kept_' + name
+
+    def getter(self):
+        return getattr(self, hidden)
+
+    def setter(self, value):
+        setattr(self, hidden, value)
+
+    return property(getter, setter)
 
 
 def _mk_method(m):
@@ -435,6 +451,7 @@ def run_case(case):
     seen = set()
     hooked = any(level.get('hook') or level.get('manual') for level in shape['levels'])
     obs['hook_declared'] = int(any(level.get('hook') for level in shape['levels']))
+    obs['property_backed_members'] = int(any(level.get('prop') and level['decl'] for level in shape['levels']))
     obs['manually_saved'] = int(any(level.get('manual') for level in shape['levels']))
     for c, decl in chain:
         if hooked:
@@ -492,6 +509,18 @@ def run_case(case):
                 pass
             except BaseException as exc:  # noqa: BLE001
                 viol.append(V('unknown-class-error', 'unknown-class-error:%s' % type(exc).__name__, 'unknown class name raised %r instead of ValueError' % (exc,)))
+            # ... and so is a recorded *loader* that cannot be found any more: the state says which loader understands its identifiers, and
+            # reading them with another one (the default) instead is a guess, not a load
+            lost = copy.deepcopy(state)
+            Savable.set_custom_meta(lost, persistence.META__OBJECT_LOADER, 'pv.generated:NoSuchLoader_%d' % case['i'])
+            obs['lost_loader_probes'] = 1
+            try:
+                res = Savable.load(lost)
+                viol.append(V('lost-loader-ignored', 'lost-loader-ignored', 'the state names a loader class that cannot be found; it was loaded all the same (%r), through another loader' % (res,)))
+            except ValueError:
+                pass
+            except BaseException as exc:  # noqa: BLE001
+                viol.append(V('unknown-class-error', 'unknown-class-error:loader:%s' % type(exc).__name__, 'a recorded loader that cannot be found raised %r instead of ValueError' % (exc,)))
             # a class that cannot be found under its own name (here: a class made at run time that bears the name of a registered
             # one) is unknown too: saving or loading it is a ValueError, never an object of the other class
             shadow = type(cls.__name__, (cls,), {'__module__': cls.__module__})
